@@ -56,9 +56,17 @@ print("confirm:", {k: res.get(k) for k in ("applies", "demo_passes_without", "de
 # run the checks against it
 claimed = [c["property_id"] for c in json.load(open("/verif/MANIFEST.json"))["checks"]]
 todo = props or claimed
-rc, out = run("git -C /repo status --porcelain")
-assert out.strip() == "", "/repo not clean: " + out
-rc, out = run("git -C /repo apply %s" % patch)
+ALT = "--alt" in sys.argv     # evaluate in a scratch worktree through VERIF_REPO (when /repo itself is in use)
+TARGET = "/repo"
+if ALT:
+    TARGET = "/tmp/mut/alt"
+    run("git -C /repo worktree remove --force %s" % TARGET)
+    rc, out = run("git -C /repo worktree add -q %s HEAD" % TARGET)
+    assert rc == 0, out
+    env["VERIF_REPO"] = TARGET
+rc, out = run("git -C %s status --porcelain" % TARGET)
+assert out.strip() == "", "%s not clean: " % TARGET + out
+rc, out = run("git -C %s apply %s" % (TARGET, patch))
 assert rc == 0, out
 verdicts = {}
 try:
@@ -79,9 +87,11 @@ try:
         verdicts[p] = v
         print(p, v, "%.0fs" % (time.time() - t0), flush=True)
 finally:
-    run("git -C /repo checkout -- .")
-rc, out = run("git -C /repo status --porcelain")
-assert out.strip() == "", "/repo not restored: " + out
+    run("git -C %s checkout -- ." % TARGET)
+rc, out = run("git -C %s status --porcelain" % TARGET)
+assert out.strip() == "", "%s not restored: " % TARGET + out
+if ALT:
+    run("git -C /repo worktree remove --force %s" % TARGET)
 res["verdicts"] = verdicts
 res["breaks"] = ID
 res["meta_text"] = open(meta).read() if os.path.exists(meta) else ""
